@@ -4,6 +4,8 @@ from __future__ import annotations
 
 from collections import defaultdict
 from dataclasses import dataclass
+from functools import reduce
+from operator import mul
 from typing import TYPE_CHECKING
 from typing import DefaultDict
 from typing import Iterable
@@ -214,21 +216,24 @@ class BlockNode(Node):
                 template_name=stack_item.source_name,
             )
 
+        drop = BlockDrop(
+            token=self.token,
+            context=context,
+            buffer=buffer,
+            name=self.name,
+            parent=stack_item.parent,
+        )
+
         ctx = context.copy(
             token=self.token,
-            namespace={
-                "block": BlockDrop(
-                    token=self.token,
-                    context=context,
-                    buffer=buffer,
-                    name=self.name,
-                    parent=stack_item.parent,
-                )
-            },
+            namespace={"block": drop},
             disabled_tags=context.disabled_tags,
             carry_loop_iterations=True,
             block_scope=True,
         )
+
+        # Loops around `block.super` run in `ctx`.
+        drop.scope = ctx
 
         return stack_item.block.block.render(ctx, buffer)
 
@@ -269,21 +274,24 @@ class BlockNode(Node):
                 template_name=stack_item.source_name,
             )
 
+        drop = BlockDrop(
+            token=self.token,
+            context=context,
+            buffer=buffer,
+            name=self.name,
+            parent=stack_item.parent,
+        )
+
         ctx = context.copy(
             token=self.token,
-            namespace={
-                "block": BlockDrop(
-                    token=self.token,
-                    context=context,
-                    buffer=buffer,
-                    name=self.name,
-                    parent=stack_item.parent,
-                )
-            },
+            namespace={"block": drop},
             disabled_tags=context.disabled_tags,
             carry_loop_iterations=True,
             block_scope=True,
         )
+
+        # Loops around `block.super` run in `ctx`.
+        drop.scope = ctx
         return await stack_item.block.block.render_async(ctx, buffer)
 
     def children(
@@ -363,7 +371,7 @@ class _BlockStackItem:
 class BlockDrop(Mapping[str, object]):
     """A `block` object with a `super` property."""
 
-    __slots__ = ("token", "buffer", "context", "name", "parent")
+    __slots__ = ("token", "buffer", "context", "name", "parent", "scope")
 
     def __init__(
         self,
@@ -379,6 +387,8 @@ class BlockDrop(Mapping[str, object]):
         self.context = context
         self.name = name
         self.parent = parent
+        # The context the overriding block is rendered in, if it is not `context`.
+        self.scope: RenderContext | None = None
 
     def __str__(self) -> str:  # pragma: no cover
         return f"BlockDrop({self.name})"
@@ -393,18 +403,30 @@ class BlockDrop(Mapping[str, object]):
         # NOTE: We're not allowing chaining of references to `super` for now.
         # Just the immediate parent.
         buf = self.context.get_output_buffer(self.buffer)
-        with self.context.extend(
-            {
-                "block": BlockDrop(
-                    token=self.parent.token,
-                    context=self.context,
-                    buffer=buf,
-                    name=self.parent.source_name,
-                    parent=self.parent.parent,
-                )
-            }
-        ):
-            self.parent.block.block.render(self.context, buf)
+
+        # Loops in the parent block nest inside any loops around `block.super`,
+        # and count towards the loop iteration limit together.
+        carry = self.context.loop_iteration_carry
+        if self.scope is not None:
+            self.context.loop_iteration_carry = reduce(
+                mul, (loop.length for loop in self.scope.loops), carry
+            )
+
+        try:
+            with self.context.extend(
+                {
+                    "block": BlockDrop(
+                        token=self.parent.token,
+                        context=self.context,
+                        buffer=buf,
+                        name=self.parent.source_name,
+                        parent=self.parent.parent,
+                    )
+                }
+            ):
+                self.parent.block.block.render(self.context, buf)
+        finally:
+            self.context.loop_iteration_carry = carry
 
         if self.context.auto_escape:
             return Markupsafe(buf.getvalue())
